@@ -7,7 +7,7 @@ from vf.ob import obligation, shard
 from tartiflette import Resolver, Subscription
 
 META = {
-    "bounds": "7 subscription documents (non-null root field, alias, fragment, literal/variable/default arguments, nested selection with a non-null leaf) + 12 invalid requests (unknown field / directive, missing or ill-typed variable, ill-typed literal, several root fields directly and through sibling / nested fragments); event sequences of "
+    "bounds": "9 subscription documents (source without resolver, several operations selected by operation_name, non-null root field, alias, fragment, literal/variable/default arguments, nested selection with a non-null leaf) + 12 invalid requests (unknown field / directive, missing or ill-typed variable, ill-typed literal, several root fields directly and through sibling / nested fragments); event sequences of "
               "length 0..3 (0..2 in the quick tier) over unbounded ints / None (payloads that are well-formed, provoke a field error, or are null); gated source and gated consumer",
     "outside": "more than 3 events per stream; several concurrent subscriptions on one engine (C15 covers execute)",
     "explanation": "Each yielded response is compared with the response the payload must produce (C01/C02 semantics), position by position; source call counter and coerced source arguments checked.",
@@ -17,7 +17,7 @@ SDL = """
 type Leaf { n: Int! }
 type Mid { n: Int leaf: Leaf }
 type Query { a: Int }
-type Subscription { tick(n: Int = 2): Int  ev(k: Int): Mid  strict(n: Int): Int!  sev: Mid! }
+type Subscription { tick(n: Int = 2): Int  ev(k: Int): Mid  strict(n: Int): Int!  sev: Mid!  plain(n: Int): Int }
 """
 ST = {"events": [], "gate": False}
 SRC_CALLS = []
@@ -49,6 +49,15 @@ async def _src_strict(parent, args, ctx, info):
         if ST["gate"]:
             await miniloop.gate("src")
         yield e
+
+
+@Subscription("Subscription.plain", schema_name=NAME)        # no @Resolver: the default resolver picks the field out of each event
+async def _src_plain(parent, args, ctx, info):
+    SRC_CALLS.append(("plain", args))
+    for e in ST["events"]:
+        if ST["gate"]:
+            await miniloop.gate("src")
+        yield {"plain": e}
 
 
 @Resolver("Subscription.strict", schema_name=NAME)
@@ -84,7 +93,10 @@ DOCS = [
     ("subscription S($n: Int = 9) { ... on Subscription { x: ev(k: $n) { leaf { n } } } }", "ev", "x", None),
     ("subscription { tick(n: null) }", "tick", "tick", {"n": None}),
     ("subscription { s: strict(n: 1) }", "strict", "s", {"n": 1}),          # non-null root field: a failing event nulls `data` of THAT response only
+    ("subscription { p: plain(n: 1) }", "plain", "p", {"n": 1}),            # source only, default resolver
+    ("query Q { a } subscription S { tick } subscription T { t: tick(n: 7) }", "tick", "tick", {"n": 2}),       # several operations: operation_name selects the subscription
 ]
+OPNAME = {8: "S"}
 BAD = [
     ("subscription { nope }", {}), ("subscription S($n: Int!) { tick(n: $n) }", {}), ("subscription S($n: Int) { tick(n: $n) }", {"n": "str"}), ("subscription { tick ev { n } }", {}),
     # more than one root field, the second one reached through fragments placed next to the first selection
@@ -107,7 +119,7 @@ async def consume(agen, gated):
 def warm():
     ST["events"] = []; ST["gate"] = False
     for q, _, _, _ in DOCS:
-        env.run(consume(ENG.subscribe(q, variables={}), False))
+        env.run(consume(ENG.subscribe(q, variables={}, operation_name="S" if " S " in q and "subscription T" in q else None), False))
     for q, v in BAD:
         env.run(consume(ENG.subscribe(q, variables=dict(v)), False))
 
@@ -165,7 +177,7 @@ def c14_stream(events: List[Optional[int]], arg: Optional[int], argmode: int, ga
         return True
     ST["events"] = events; ST["gate"] = bool(sh["gated"])
     del SRC_CALLS[:]; del RES_CALLS[:]
-    ok, got = safe(lambda: env.run(consume(ENG.subscribe(q, variables=variables), bool(sh["cgated"]))))
+    ok, got = safe(lambda: env.run(consume(ENG.subscribe(q, variables=variables, operation_name=OPNAME.get(sh["doc"])), bool(sh["cgated"]))))
     observe(got, list(SRC_CALLS))
     if not ok:
         return verdict(False)
@@ -175,6 +187,9 @@ def c14_stream(events: List[Optional[int]], arg: Optional[int], argmode: int, ga
         if field == "strict":
             bad = e is None or e < 0 or e >= I32
             exp, nerr = ({"data": None}, 1) if bad else ({"data": {key: e}}, 0)
+        elif field == "plain":
+            oob = e is not None and not (-I32 <= e < I32)
+            exp, nerr = ({"data": {key: None if oob else e}}, 1 if oob else 0)
         else:
             exp, nerr = expected_tick(key, e) if field == "tick" else expected_ev(key, e, "n leaf" in q)
         if r.get("data") != exp["data"]:
@@ -201,7 +216,7 @@ def c14_stream(events: List[Optional[int]], arg: Optional[int], argmode: int, ga
         if (sargs[kk] is None) != (exp_args[kk] is None) or (exp_args[kk] is not None and sargs[kk] != exp_args[kk]):
             return verdict(False)
     # the field resolver ran exactly once per event, with the event as parent
-    if len(RES_CALLS) != len(events):
+    if field != "plain" and len(RES_CALLS) != len(events):
         return verdict(False)
     return verdict(True)
 
